@@ -49,3 +49,13 @@ Theorem C18_refuted_panic_after_snapshot :
   arun false init [XCommit (ECmd true); XStart; XStep PubOk; XStop; XSnapshot 0; XRestart; XStart; XStep PubOk] = Panic.
 Proof. exact pinned_panics. Qed.
 Print Assumptions C18_refuted_panic_after_snapshot.
+
+(* The dispatcher trails behind entries that do not wake it (barriers after the recorded event); the
+   log is compacted with every event published; the next operation wakes it.  The repaired
+   dispatcher continues at the first entry there is and delivers the new event; the code before
+   that repair panicked on the entry that is gone (found by the thorough tier on the real server). *)
+Theorem C18_refuted_panic_on_trailing_entries :
+  option_map a_stream (match arun true init trailing_schedule with Ok s => Some s | _ => None end) = Some [1; 5] /\
+  arun false init trailing_schedule = Panic.
+Proof. exact trailing_dispatcher_survives. Qed.
+Print Assumptions C18_refuted_panic_on_trailing_entries.
